@@ -16,8 +16,12 @@ def run(ctx):
                         "the environment (binder, kubelet) between cycles is played by the harness with the binder's labelling conventions",
                         "TLC evaluates C01_* after every decision of every recorded real cycle and at every cycle start"]
     st_clustermodel.run_stage(ctx, PREFIXES, thorough=not ctx.quick)
-    n = 240 if ctx.quick else 6000
+    n = 600 if ctx.quick else 8000
     plan = [("mixed", n // 3), ("slots", n // 8), ("fraction", n // 8), ("full", n // 8), ("bindfail", n // 6), ("overhead", n // 6)]
     st_cluster.run_stage(ctx, PREFIXES, plan)
     if not ctx.quick:
         st_fixtures.run_stage(ctx, PREFIXES)
+
+
+def replay(ctx, obj):
+    st_cluster.replay_stage(ctx, obj, PREFIXES)
